@@ -28,8 +28,8 @@ ASSUMPTIONS = [
     "for mixed-type sequences only the laws are checked, not a particular inferred dtype",
 ]
 BOUND = {
-    "quick": "sequences of length 0..3 over 24 scalars; explicit dtypes for homogeneous sequences; equal() relation over all pairs of vectors of length <= 2 built from 12 scalars",
-    "thorough": "sequences of length 0..4 over 24 scalars; equal() relation over all pairs of vectors of length <= 2 built from all 24 scalars",
+    "quick": "sequences of length 0..3 over 26 scalars; explicit dtypes for homogeneous sequences; equal() relation over all pairs of vectors of length <= 2 built from 14 scalars",
+    "thorough": "sequences of length 0..4 over 26 scalars; equal() relation over all pairs of vectors of length <= 2 built from all 26 scalars (vectors reported equal must also hold == values position by position)",
 }
 TIME_CAP = {"quick": 240, "thorough": 3000}
 
@@ -69,6 +69,9 @@ SCALARS = {
     "complex": 1 + 2j,
     "a": "a",
     "empty": "",
+    # two strings of the same length, too long for StringDType's inline storage, that differ in the last character
+    "long1": "2020-01-01T00:00:00",
+    "long2": "2020-01-01T00:00:01",
     "date": datetime.date(2020, 2, 29),
     "datetime": datetime.datetime(2020, 2, 29, 23, 59, 59),
     "timedelta": datetime.timedelta(days=1),
@@ -87,7 +90,7 @@ SCALARS = {
 NAMES = list(SCALARS)
 MISSING = {"None", "nan", "npnan"}
 FAMILY = {
-    "True": "bool", "1": "int", "big": "int", "1.5": "float", "complex": "complex", "a": "str", "empty": "str",
+    "True": "bool", "1": "int", "big": "int", "1.5": "float", "complex": "complex", "a": "str", "empty": "str", "long1": "str", "long2": "str",
     "date": "date", "datetime": "datetime", "timedelta": "timedelta", "bytes": "bytes",
     "np.int64": "np.int", "np.float64": "np.float", "np.bool": "np.bool", "np.str": "np.str",
     "np.dt64": "np.dt64", "np.NaT": "np.dt64", "np.td64": "np.td64", "dict": "object", "inst": "object", "aloof": "object",
@@ -416,7 +419,7 @@ def seq_cases(names):
 def run_equal(tier, rec):
     # np.timedelta64 is left out of the relation pool: Python's own == is not transitive across it
     # (True == np.timedelta64(1, 'D') == timedelta(days=1), but True != timedelta(days=1)), and equal() is defined by ==
-    pool = [x for x in NAMES if x not in ("np.td64", "aloof")] if tier != "quick" else ["None", "nan", "True", "1", "1.5", "a", "empty", "date", "datetime", "np.int64", "np.dt64", "inst"]
+    pool = [x for x in NAMES if x not in ("np.td64", "aloof")] if tier != "quick" else ["None", "nan", "True", "1", "1.5", "a", "empty", "long1", "long2", "date", "datetime", "np.int64", "np.dt64", "inst"]
     vecs = []
     for n in range(0, 3):
         for names in itertools.product(pool, repeat=n):
@@ -440,6 +443,13 @@ def run_equal(tier, rec):
                 continue
             if r:
                 eq[i].add(j)
+                # vectors reported equal hold, position by position, two missing values or two values that are == in Python
+                a, b = vecs[i][1], vecs[j][1]
+                la, lb = a.tolist(), b.tolist()
+                bad = len(la) != len(lb) or any(not ((x is None and y is None) or (x is not None and y is not None and x == y))
+                                                for x, y in zip(la, lb))
+                if bad:
+                    rec.violation("equal", "equal-but-different", {"equal": [vecs[i][0], vecs[j][0]]}, f"{a!r} reported equal to {b!r}")
             rec.outcome(("equal", r))
     for i in range(m):
         if i not in eq[i]:
@@ -456,6 +466,10 @@ def run_equal(tier, rec):
 
 def check_equal_case(case, rec):
     vs = [Vector([SCALARS[x] for x in names]) for names in case["equal"]]
+    if len(vs) == 2 and vs[0].equal(vs[1]):
+        la, lb = vs[0].tolist(), vs[1].tolist()
+        if len(la) != len(lb) or any(not ((x is None and y is None) or (x is not None and y is not None and x == y)) for x, y in zip(la, lb)):
+            rec.violation("equal", "equal-but-different", case, f"{vs[0]!r} reported equal to {vs[1]!r}")
     if len(vs) == 2:
         a, b = vs
         if a.equal(b) != b.equal(a):
